@@ -1245,3 +1245,54 @@ def size_field_twin(ctx):
     else:
         ctx.violation(key, fm.loc(whole[0][0] if whole else 0), 'cannot match the uncompressed chunk size field of the cutter with the writer '
                       '(writer: header[%d..]; cutter whole-array fields: %d)' % (plain_layout[0], len(whole)))
+
+
+# --------------------------------------------------------------------------- EMIT-LOOP-FLAGS (C01) - round 12
+
+@rule('EMIT-LOOP-FLAGS', ['C01', 'C03'], floor=1)
+def emit_loop_flags(ctx):
+    """A chunk emitter that writes several chunk headers in a loop (data that is stored uncompressed is cut into pieces of
+    at most 64 KiB) chooses each header's control byte from the writer's pending-reset flags. A flag that is read inside
+    the loop to choose a header has to be cleared inside the loop as well: the request it stands for is served by the
+    FIRST header. Cleared only behind the loop, every further piece repeats the dictionary reset (control 0x01), the
+    reader drops the window between two pieces of one chunk, and a later match into the first piece fails. FLAG-MODEL
+    treats an emitter call as one step and cannot see this."""
+    from lzlint.core import field_path, op_const
+    F = ctx.facts
+    n = 0
+    for f in methods_of(F, 'LZMA2Writer'):
+        loops = f.loops()
+        if not loops:
+            continue
+        prov = Prov(f)
+        for h, body in loops.items():
+            if not any(c.name == 'write_all' for bi, t, c in f.calls() if bi in body):
+                continue
+            read = {}
+            for sb in body:
+                t = f.blocks[sb]['term']
+                if t['k'] != 'switch' or switch_edges(f, sb) is None:
+                    continue
+                cond = prov.operand(t['discr'], 0, '%d:T' % sb)
+                while cond[0] == 'un' and cond[1] == 'Not':
+                    cond = cond[2]
+                sf = self_field_of(cond)
+                if cond[0] != 'bin' and sf and len(sf) == 1:
+                    read[sf[0]] = sb
+            for fld, sb in sorted(read.items()):
+                n += 1
+                key = '%s:%s:cleared-in-the-loop-that-reads-it' % (f.key, fld)
+                cleared = False
+                for bi in body:
+                    for s in f.blocks[bi]['stmts']:
+                        if s['k'] == 'assign' and s['lhs']['l'] == 1 and tuple(field_path(s['lhs']) or ()) == (fld,) and s['rv']['r'] == 'use':
+                            k = op_const(s['rv']['o'])
+                            if k is not None and k.get('v') in (0, False):
+                                cleared = True
+                if cleared:
+                    ctx.ok(key, f.loc(sb), 'the flag chooses a header inside the loop and is cleared inside it')
+                else:
+                    ctx.violation(key, f.loc(sb), '`%s` chooses the control byte of every header this loop writes but is not cleared inside the loop: '
+                                  'the second piece of a chunk that is stored in several pieces repeats the reset the first one already made' % fld)
+    if n == 0:
+        ctx.anchor_missing('LZMA2Writer emitter that writes headers in a loop and reads a flag there')
